@@ -74,8 +74,9 @@ def gen_case(rng):
     if estimation and rng.random() < 0.35:
         # a sensor whose clock is off for a while: what it observes is still recorded at the scenario's epochs
         events.append({"kind": "time_bias", "k": rng.randrange(0, max(1, total - 1)), "shift": 1, "len": rng.randrange(1, total + 1), "bias": rng.choice([0.5, -0.5, 1.0])})
+    dup_names = rng.random() < 0.3  # names are free-form labels: two agents (and the satellite joining later) may share one
     second_engine = rng.random() < 0.3  # a second tasking engine that shares the first target (one estimate agent serves both)
-    return {"kind": "audit", "second_engine": second_engine, "net": net, "out": out, "plan": plan, "span_steps": span_steps, "estimation": estimation, "events": events}
+    return {"kind": "audit", "dup_names": dup_names, "second_engine": second_engine, "net": net, "out": out, "plan": plan, "span_steps": span_steps, "estimation": estimation, "events": events}
 
 
 def build_cfg(case):
@@ -113,6 +114,15 @@ def build_cfg(case):
         cfg["estimation"]["sequential_filter"] = {"name": "genetic_particle_filter", "dynamics_model": "two_body", "save_filter_steps": True,
                                                   "population_size": 30, "num_purge": 4, "num_keep": 4, "num_mutate": 8}
     cfg["time"]["stop_timestamp"] = sk.iso(start + timedelta(seconds=case["span_steps"] * net["step"]))
+    if case.get("dup_names"):
+        e1 = cfg["engines"][0]
+        for tc in e1["targets"][1:2]:
+            tc["name"] = e1["targets"][0]["name"]
+        for sc in e1["sensors"][1:2]:
+            sc["name"] = e1["sensors"][0]["name"]
+        for ev in cfg["events"]:
+            if ev.get("event_type") == "target_addition":
+                ev["target_agent"]["name"] = e1["targets"][0]["name"]
     if case.get("second_engine"):
         e1 = cfg["engines"][0]
         e2 = json.loads(json.dumps(e1))
@@ -393,7 +403,14 @@ def orm_readback(ctx, case, b, committed, hist, wit):
 
     db = b.app.database
     by_cap = {c["jd"]: c for c in committed}
-    for row in db.getData(Query(TruthEphemeris)):
+    truth_orm = db.getData(Query(TruthEphemeris))
+    con = sqlite3.connect(b.db_path)
+    # (the record classes join epochs and agents: a row whose epoch or agent does not exist is the referential monitor's subject)
+    n_truth = con.execute("select count(*) from truth_ephemerides t join epochs e on e.julian_date = t.julian_date join agents a on a.unique_id = t.agent_id").fetchone()[0]
+    fs_keys = con.execute("select julian_date, target_id from filterstep").fetchall()
+    con.close()
+    ctx.check(len(truth_orm) == n_truth, "truth-readback-orm-row-count", f"the library's query for truth ephemerides returns {len(truth_orm)} record(s), the table holds {n_truth} with an existing epoch and agent", wit, mon="readback_orm")
+    for row in truth_orm:
         c = by_cap.get(float(row.julian_date))
         mem = None if c is None else c["truth"].get(int(row.agent_id))
         if mem is None:
@@ -428,7 +445,11 @@ def orm_readback(ctx, case, b, committed, hist, wit):
             got.setdefault((float(r.julian_date), int(r.target_id)), []).append(r)
         ctx.count("filter_steps_recorded", sum(len(v) for v in want.values()))
         want_req = {k_: v for k_, v in want.items() if k_ not in removed_keys}
-        got_req = {k_: v for k_, v in got.items() if k_[1] in alive}
+        # completeness is counted on the table itself (the record classes drop rows whose epoch does not exist - a known finding of the referential monitor)
+        got_req = {}
+        for jd_, tid_ in fs_keys:
+            if int(tid_) in alive:
+                got_req.setdefault((float(jd_), int(tid_)), []).append(None)
         ctx.check(sorted(want_req) == sorted(got_req) and all(len(want_req[k_]) == len(got_req[k_]) for k_ in want_req), "filterstep-rows-ne-recorded",
                   f"the estimate agents recorded {sum(len(v) for v in want.values())} filter step(s) up to the last output epoch, the database holds {sum(len(v) for v in got.values())} "
                   f"(missing {len(set(want_req) - set(got_req))}, unexpected {len(set(got_req) - set(want_req))}; physics {net['step']}s, output {case['out']}s)", wit, mon="cardinality")
